@@ -43,7 +43,7 @@ func init() {
 			return val.Err
 		}
 		pf := &schnorr.ZKProof{Alpha: al, T: val.AsInt(a[4])}
-		return okb(pf.Verify(val.AsBytes(a[1]), X))
+		return okb(pf.Verify(sessBuf(a[1]), X))
 	})
 	// schnorrv_verify curve #session [V] [R] [alpha] t u
 	vc.Register("schnorrv_verify", func(a []val.V) val.V {
@@ -53,7 +53,7 @@ func init() {
 			return val.Err
 		}
 		pf := &schnorr.ZKVProof{Alpha: al, T: val.AsInt(a[5]), U: val.AsInt(a[6])}
-		return okb(pf.Verify(val.AsBytes(a[1]), V, R))
+		return okb(pf.Verify(sessBuf(a[1]), V, R))
 	})
 	// alice_verify curve N NTilde h1 h2 c [Z U W S S1 S2]
 	vc.Register("alice_verify", func(a []val.V) val.V {
@@ -71,7 +71,7 @@ func init() {
 		ec := curveByName(val.AsAtom(a[0]))
 		pk := &paillier.PublicKey{N: val.AsInt(a[2])}
 		pf := bob(val.AsInts(a[8]))
-		return okb(pf.Verify(val.AsBytes(a[1]), ec, pk, val.AsInt(a[3]), val.AsInt(a[4]), val.AsInt(a[5]), val.AsInt(a[6]), val.AsInt(a[7])))
+		return okb(pf.Verify(sessBuf(a[1]), ec, pk, val.AsInt(a[3]), val.AsInt(a[4]), val.AsInt(a[5]), val.AsInt(a[6]), val.AsInt(a[7])))
 	})
 	// bobwc_verify curve #session N NTilde h1 h2 c1 c2 [10] [U] [X]
 	vc.Register("bobwc_verify", func(a []val.V) val.V {
@@ -82,7 +82,7 @@ func init() {
 			return val.Err
 		}
 		pf := &mta.ProofBobWC{ProofBob: bob(val.AsInts(a[8])), U: U}
-		return okb(pf.Verify(val.AsBytes(a[1]), ec, pk, val.AsInt(a[3]), val.AsInt(a[4]), val.AsInt(a[5]), val.AsInt(a[6]), val.AsInt(a[7]), X))
+		return okb(pf.Verify(sessBuf(a[1]), ec, pk, val.AsInt(a[3]), val.AsInt(a[4]), val.AsInt(a[5]), val.AsInt(a[6]), val.AsInt(a[7]), X))
 	})
 	// *_frombytes: arity / emptiness handling of the decoders -> Ok n (number of parts read) or Err
 	vc.Register("bobwc_frombytes", func(a []val.V) val.V {
@@ -141,14 +141,14 @@ func init() {
 		pf := &modproof.ProofMod{W: p[0], A: p[modproof.Iterations+1], B: p[modproof.Iterations+2]}
 		copy(pf.X[:], p[1:modproof.Iterations+1])
 		copy(pf.Z[:], p[modproof.Iterations+3:])
-		return okb(pf.Verify(val.AsBytes(a[0]), val.AsInt(a[1])))
+		return okb(pf.Verify(sessBuf(a[0]), val.AsInt(a[1])))
 	})
 	// fac_verify curve #session N0 NCap s t [11]
 	vc.Register("fac_verify", func(a []val.V) val.V {
 		ec := curveByName(val.AsAtom(a[0]))
 		p := val.AsInts(a[6])
 		pf := &facproof.ProofFac{P: p[0], Q: p[1], A: p[2], B: p[3], T: p[4], Sigma: p[5], Z1: p[6], Z2: p[7], W1: p[8], W2: p[9], V: p[10]}
-		return okb(pf.Verify(val.AsBytes(a[1]), ec, val.AsInt(a[2]), val.AsInt(a[3]), val.AsInt(a[4]), val.AsInt(a[5])))
+		return okb(pf.Verify(sessBuf(a[1]), ec, val.AsInt(a[2]), val.AsInt(a[3]), val.AsInt(a[4]), val.AsInt(a[5])))
 	})
 	// dln_verify h1 h2 N [alpha*128] [t*128]
 	vc.Register("dln_verify", func(a []val.V) val.V {
